@@ -520,6 +520,14 @@ func rewardTokens(sc *Scenario, watch map[common.Address]bool, wesc map[escKey]b
 		wesc[escKey{nh, ac}] = true
 	}
 	wesc[escKey{nh, common.Address{}}] = true
+	// where a miner refund of this block is scheduled (now + 36000) and, to catch a moved
+	// schedule, the neighbouring candidates
+	for _, m := range sc.Miners {
+		ac := common.BytesToAddress(unhex(m.Account))
+		for _, d := range []uint64{36000, 18000, 36000 - 50, 5000} {
+			wesc[escKey{sc.Height + d, ac}] = true
+		}
+	}
 	castor := "-"
 	if sc.Castor != "" {
 		castor = sc.Castor
